@@ -74,8 +74,13 @@ Mmap ==
   /\ s' = IF Ev.ok THEN [s EXCEPT !.pend = @ \cup {Ev.name}, !.touched = TRUE] ELSE s
 
 \* giving back a mapping: it must be one the injector owns and has not given back yet
+\* an (injected) munmap failure changes nothing; the mapping stays, through no fault of the library
+MunmapFailed ==
+  /\ Step("Munmap") /\ InLib /\ Ev.ret # 0
+  /\ s' = [s EXCEPT !.orphans = @ \cup ({Ev.name} \cap s.live), !.live = @ \ {Ev.name}]
+
 Munmap ==
-  /\ Step("Munmap") /\ InLib /\ Held
+  /\ Step("Munmap") /\ InLib /\ Held /\ Ev.ret = 0
   /\ Req("C12", ~Ev.foreign /\ Ev.name \in (s.pend \cup s.live \cup s.orphans))
   /\ Req("C12", Ev.name \in s.live => s.phase = "drop")
   /\ Req("C03", ~Ev.foreign)         \* memory the injector does not own is never given back on its behalf
@@ -241,7 +246,7 @@ Note == Step("Note") /\ s' = s
 Neighbour == Step("Neighbour") /\ Req("C03", Ev.ok) /\ s' = s
 
 TraceNext ==
-  \/ Ambient \/ Target \/ Acquire \/ InstallBegin \/ Mmap \/ Munmap \/ WriteTramp \/ WriteEntry \/ WriteOther
+  \/ Ambient \/ MunmapFailed \/ Target \/ Acquire \/ InstallBegin \/ Mmap \/ Munmap \/ WriteTramp \/ WriteEntry \/ WriteOther
   \/ Flush \/ Mprotect \/ InstallEndOk \/ InstallEndAbandoned \/ InstallEndPanic \/ Call \/ UserPanic \/ DropBegin \/ DropEnd
   \/ Diff \/ Fresh \/ ChildExit \/ Note \/ CallUnwind \/ Neighbour
 
